@@ -241,7 +241,7 @@ func Run(c *core.Ctx) int {
 			c.Inconclusive("compile-timeout")
 			return
 		}
-		s.judge(g, dirs[j.pi], j, res.OK, res.Output, res.JS, k)
+		s.judge(g, dirs[j.pi], j, res.OK, res.Output, res.JS, k, nil)
 	})
 	phase("e2e")
 	// ---- (2a) API level on the generated directories ----
@@ -497,13 +497,52 @@ func (s *state) e2eBatch(pkgs []*GenPkg, dirs []string, jobs []e2eJob, chunk int
 		fmt.Printf("C18: build child failed (exit %d timeout %v): %s\n", r.Exit, r.TimedOut, firstLines(r.Stderr, 5))
 		return
 	}
+	// run all successfully built programs in one node process (fresh vm context each); anything
+	// abnormal there falls back to a stand-alone `node out.js` inside judge
+	type nodeJob struct {
+		ID   string `json:"id"`
+		File string `json:"file"`
+	}
+	type nodeRes struct {
+		ID    string   `json:"id"`
+		Lines []string `json:"lines"`
+		Error string   `json:"error"`
+		Done  bool     `json:"done"`
+	}
+	var nj []nodeJob
+	for k := range jobs {
+		if res[k].OK {
+			nj = append(nj, nodeJob{ID: fmt.Sprint(k), File: bj[k].Out})
+		}
+	}
+	pre := map[string]*nodeRes{}
+	if len(nj) > 0 {
+		njf, nrf := filepath.Join(d, "node-jobs.json"), filepath.Join(d, "node-res.json")
+		b, _ := json.Marshal(nj)
+		os.WriteFile(njf, b, 0o644)
+		nr := core.Exec(d, core.BaseEnv(), 10*time.Minute, "", "node", "--stack-size=4000", filepath.Join(c.Verif, "js", "c18_runner.js"), njf, nrf)
+		var nres []nodeRes
+		if rb, err := os.ReadFile(nrf); err == nil && !nr.TimedOut && json.Unmarshal(rb, &nres) == nil {
+			for i := range nres {
+				pre[nres[i].ID] = &nres[i]
+			}
+		}
+	}
 	for k, j := range jobs {
-		s.judge(pkgs[j.pi], dirs[j.pi], j, res[k].OK, res[k].Err, bj[k].Out, chunk*1000+k)
+		var out *string
+		if p := pre[fmt.Sprint(k)]; p != nil && p.Done && p.Error == "" {
+			o := strings.Join(p.Lines, "\n") + "\n"
+			out = &o
+		}
+		s.judge(pkgs[j.pi], dirs[j.pi], j, res[k].OK, res[k].Err, bj[k].Out, chunk*1000+k, out)
 	}
 }
 
 // judge compares the outcome of one build (and run) with the prediction.
-func (s *state) judge(g *GenPkg, dir string, j e2eJob, ok bool, output string, js string, seq int) {
+//
+// stdout, when not nil, is what the program printed in the batch runner (js/c18_runner.js);
+// otherwise the program is run stand-alone here.
+func (s *state) judge(g *GenPkg, dir string, j e2eJob, ok bool, output string, js string, seq int, stdout *string) {
 	c := s.c
 	tags := g.TagSets[j.ti]
 	goos := j.goos
@@ -592,10 +631,17 @@ func (s *state) judge(g *GenPkg, dir string, j e2eJob, ok bool, output string, j
 			s.replayFiles(g, map[string]string{"cmd.sh": cmd, "compiler-output.txt": output}))
 		return
 	}
-	run := c.RunNode(js, core.NodeOpt{Timeout: 2 * time.Minute})
-	if run.TimedOut {
-		c.Inconclusive("node-timeout")
-		return
+	var run core.Run
+	if stdout != nil {
+		run.Stdout = *stdout
+		c.Count("e2e_runs_in_batch_runner", 1)
+	} else {
+		run = c.RunNode(js, core.NodeOpt{Timeout: 2 * time.Minute})
+		c.Count("e2e_runs_standalone_node", 1)
+		if run.TimedOut {
+			c.Inconclusive("node-timeout")
+			return
+		}
 	}
 	var obsJS, obsGo []string
 	sawReg := false
